@@ -548,30 +548,36 @@ Fixpoint linit (im : impl) (cap0 : Z) : lstate :=
   | IConc i => SConc (linit i cap0)
   end.
 
-(* What the correspondence check observes: after every operation also Len, AsSlice and Cap
-   (the last one only as a diagnostic, never compared), through the model's own operations;
-   a history stops at the first Panic. *)
-Fixpoint obs_run (s : lstate) (h : list (op * Z))
-  : list (outcome out * outcome out * outcome out * outcome out) :=
+(* What the correspondence check observes.  Every step carries a flag: when it is set, Len,
+   AsSlice and Cap (the last one only as a diagnostic, never compared) are called after the
+   operation, through the model's own operations; when it is not, only the operation's own
+   result is observed ("sparse observation": state kept by an implementation between calls
+   is then not refreshed by the observers).  A history stops at the first Panic. *)
+Fixpoint obs_run (s : lstate) (h : list (op * Z * bool))
+  : list (outcome out * option (outcome out * outcome out * outcome out)) :=
   match h with
   | [] => []
-  | (o, c) :: t =>
+  | (o, c, true) :: t =>
       let (s1, r) := lstep s o c in
       let (s2, rl) := lstep s1 OpLen c in
       let (s3, rs) := lstep s2 OpAsSlice c in
       let (s4, rc) := lstep s3 OpCap c in
-      (r, rl, rs, rc) :: (if is_panic r || is_panic rl || is_panic rs then [] else obs_run s4 t)
+      (r, Some (rl, rs, rc)) ::
+      (if is_panic r || is_panic rl || is_panic rs then [] else obs_run s4 t)
+  | (o, c, false) :: t =>
+      let (s1, r) := lstep s o c in
+      (r, None) :: (if is_panic r then [] else obs_run s1 t)
   end.
 
-Definition spec_obs_run_step (l : list Z) (o : op) :=
-  let (l1, r) := seq_step l o in
-  (l1, (r, snd (seq_step l1 OpLen), snd (seq_step l1 OpAsSlice), snd (seq_step l1 OpCap))).
-
-Fixpoint spec_obs_run (l : list Z) (h : list (op * Z))
-  : list (outcome out * outcome out * outcome out * outcome out) :=
+Fixpoint spec_obs_run (l : list Z) (h : list (op * Z * bool))
+  : list (outcome out * option (outcome out * outcome out * outcome out)) :=
   match h with
   | [] => []
-  | (o, _) :: t => let (l1, x) := spec_obs_run_step l o in x :: spec_obs_run l1 t
+  | (o, _, b) :: t =>
+      let (l1, r) := seq_step l o in
+      (r, if b then Some (snd (seq_step l1 OpLen), snd (seq_step l1 OpAsSlice),
+                          snd (seq_step l1 OpCap)) else None)
+      :: spec_obs_run l1 t
   end.
 
 (* ====================================================================== *)
